@@ -25,7 +25,7 @@ type c19Case struct {
 	Backend  string   `json:"backend"`
 }
 
-var c19Policies = []string{"vary-star", "vary-xa-star", "vary-xa", "vary-alternate-ab", "vary-alternate-none", "no-vary", "validate-each-round", "swr-each-round", "vary-star-validate", "status-alternate"}
+var c19Policies = []string{"vary-star", "vary-xa-star", "vary-xa", "vary-alternate-ab", "vary-alternate-none", "no-vary", "validate-each-round", "swr-each-round", "vary-star-validate", "status-alternate", "vary-alternate-xa-star"}
 
 func genC19(r *rand.Rand) c19Case {
 	c := c19Case{U: 1 + r.IntN(3), Policy: pick(r, c19Policies), DtS: pick(r, []float64{0, 1, 2, 5}), Backend: pick(r, []string{"mem", "mem", "mem", "fs"})}
@@ -68,6 +68,8 @@ func c19Vary(policy string, k int) (vary []string, distinct int) {
 		return [][]string{{"X-A"}, {"X-B"}}[k%2], 2
 	case "vary-alternate-none":
 		return [][]string{{"X-A"}, nil}[k%2], 2
+	case "vary-alternate-xa-star":
+		return [][]string{{"X-A"}, {"*"}}[k%2], 2
 	}
 	return nil, 1
 }
@@ -129,6 +131,9 @@ func c19Run(r *run.Runner, c c19Case) {
 			if uc.Conditional() && k%2 == 0 {
 				return Render(&RespSpec{Status: 304, ETag: `"e"`, Vary: vary}, uc.Enter, uc.Serial)
 			}
+		case "vary-alternate-xa-star":
+			rs.CC = []string{"max-age=0"} // every request goes to the origin; the reply's Vary alternates
+			rs.ETag = ""
 		case "status-alternate":
 			rs.CC = []string{"max-age=1"}
 			rs.Status = []int{200, 404, 301}[k%3]
